@@ -2047,7 +2047,11 @@ class RedunBackendDb(RedunBackend):
         with self.with_session() as session:
             value_row = session.get(Value, value_hash)
             if value_row:
-                # Value already recorded.
+                # Value already recorded. An earlier attempt may have been interrupted (process
+                # death, db_retry) after the Value row was committed but before its File/Task
+                # companion row was, so make sure the companion row exists as well.
+                if isinstance(value, (BaseFile, BaseTask)):
+                    self._record_special_redun_values([value], [value_hash])
                 if data and value_row.in_value_store:
                     # The row is an empty placeholder from an earlier offload to the
                     # value store, but this time the bytes stay in the db. Keep them,
